@@ -13,7 +13,7 @@
    Histories are arbitrary operation lists: [run T I D F G M K ops st]. *)
 From Coq Require Import List Bool NArith Permutation.
 Import ListNotations.
-From Verif Require Import PsbtModel PsbtLemmas PsbtReach PsbtAtomic PsbtIdem PsbtValid PsbtOrder PsbtUpdate PsbtExamples.
+From Verif Require Import PsbtModel PsbtLemmas PsbtReach PsbtAtomic PsbtIdem PsbtIdemOld PsbtValid PsbtOrder PsbtUpdate PsbtExamples.
 
 (* ---- never alters inputs that are already final *)
 Theorem C14_final_monotone : forall T I D F G M K (ops : list op) (st : psbt) (i : nat) (a : pinput),
@@ -88,6 +88,13 @@ Theorem C14_idempotent_inp : forall T I D F G M K,
     step T I D F G M K st (FinalizeInp i m) = (st', r) -> step T I D F G M K st' (FinalizeInp i m) = (st', r).
 Proof. exact idempotent_inp. Qed.
 Print Assumptions C14_idempotent_inp.
+
+Theorem C14_idempotent_old : forall T I D F G M K,
+  try_nonempty T ->
+  forall (st : psbt) (m : bool) (st' : psbt) (r : result),
+    step T I D F G M K st (FinalizeOld m) = (st', r) -> step T I D F G M K st' (FinalizeOld m) = (st', r).
+Proof. exact idempotent_old. Qed.
+Print Assumptions C14_idempotent_old.
 
 Example C14_idempotent_needs_nonempty :
   exists (T : psbt -> nat -> bool -> tryres) st,
